@@ -52,6 +52,10 @@ Step(M, s0) ==
       nz(k) == tb[k] # -1 /\ tb[k] # 0
       sigs == (IF idle THEN {"retained_after_all_connections_ended:" \o Names[k] : k \in {x \in 1..5 : nz(x)}} ELSE {}) \cup
               (IF idle /\ allAnswered /\ nz(7) THEN {"retained_after_all_connections_ended:" \o Names[7]} ELSE {}) \cup
+              \* per-transaction state goes when the transaction completes, not only when its connection does: once every request
+              \* received on a connection in service has been answered on the wire, the table of requests awaiting an application's
+              \* answer holds no entry (at most its one key per live connection)
+              (IF allAnswered /\ tb[5] # -1 /\ tb[5] > Len(sn.conns) THEN {"retained_after_all_requests_answered:" \o Names[5]} ELSE {}) \cup
               (IF idle /\ sends = results /\ nz(6) THEN {"retained_after_all_requests_answered:" \o Names[6]} ELSE {}) \cup
               (IF idle /\ now >= lastClose + 6 /\ nz(8) THEN {"worker_threads_alive_after_connections_ended"} ELSE {}) \cup
               (IF tb[9] # -1 /\ tb[9] # Len(sn.conns) THEN {"open_sockets_differ_from_connections"} ELSE {})
